@@ -2,7 +2,7 @@
 import itertools
 import re
 
-from core import nats, opt, b01, exc_kind
+from core import nats, opt, b01, exc_kind, safe_check
 import taxutil as T
 
 PROPS = ('GambitV.Props.C10', 'GambitV.C10')
@@ -80,7 +80,7 @@ def run(ctx):
 	rng = ctx.rng
 
 	def sub(case, tag):
-		lines, pf = check(ctx, case)
+		lines, pf = safe_check(check, ctx, case)
 		nt = case.pop('_nt', False)
 		ctx.submit(case, lines, nontrivial=nt, tags=[tag], pyfails=pf)
 
